@@ -46,6 +46,9 @@ def dispatch(prop, tier):
     if prop == "C08":
         from . import inject_check
         return inject_check.check(prop, tier)
+    if prop == "C14":
+        from . import sel_check
+        return sel_check.check(prop, tier)
     raise MachineryError("no check for %s" % prop)
 
 
@@ -87,6 +90,9 @@ def main(argv):
             if mod == "Inject":
                 from . import inject_check
                 return inject_check.replay(argv[1])
+            if mod in ("Selector", "SelectorDisc"):
+                from . import sel_check
+                return sel_check.replay(argv[1])
             raise MachineryError("cannot replay module %s" % mod)
         prop = argv[0]
         tier = argv[1] if len(argv) > 1 else os.environ.get("VERIF_TIER", "quick")
